@@ -115,6 +115,23 @@ theorem HdrKept.assignGen (cfg : Cfg) (b : Nat) : ∀ (srcs : List (Src α)) (d 
 
 theorem setSize_run (c n : Nat) (w : World α) : setSize c n w = .ok () { w with hdr := upd w.hdr c { w.hdr c with size := n } } := rfl
 
+/-- destroying a range and setting the size commute (neither reads what the other writes) -/
+theorem destroy_then_setSize (cfg : Cfg) (c b f n k : Nat) (w : World α) :
+    (destroyRange cfg b f n >>= fun _ => setSize c k) w = (setSize c k >>= fun _ => destroyRange cfg b f n) w := by
+  rw [bind_run, bind_run, setSize_run]
+  simp only []
+  rw [destroyRange_hdr cfg b n f w (upd w.hdr c { w.hdr c with size := k })]
+  have hk := HdrKept.destroyRange cfg b n f w
+  cases hd : destroyRange cfg b f n w with
+  | thrown e w2 =>
+    obtain ⟨_, w3, h3⟩ := destroyRange_noThrow cfg b n f w
+    rw [hd] at h3; cases h3
+  | ok u w2 =>
+    rw [hd] at hk
+    simp only [Res.world] at hk
+    simp only [Res.mapW]
+    rw [setSize_run, hk]
+
 /-- `copy_assign_default` is `assign_with_range` over the source's elements, then the allocator hand-over -/
 theorem copyAssignDefault_eq (cfg : Cfg) (c o : Nat) (w : World α) (hsz : (w.hdr o).size ≤ cfg.maxSize) :
     copyAssignDefault cfg c o w =
